@@ -16,7 +16,6 @@ package c03
 import (
 	"fmt"
 	"os"
-	"runtime/debug"
 	"sort"
 	"strings"
 	"sync"
@@ -117,9 +116,9 @@ func CheckRuleTable(r *evid.Run, eng *Engine) {
 //	quick:    union v2 for every item; union v1beta1+v1, the 12 category configs and the single-rule
 //	          configs of the expected rules for items without surrounding at the positions top / file
 //	          (field-type table: no single-rule configs)
-//	thorough: the three union configs for every item; category + single-rule configs for every item
-//	          except the field-type table, which gets the category configs without surrounding on the
-//	          singular slot
+//	thorough: the three union configs for every item; category configs for every item and single-rule
+//	          configs without surrounding, except the field-type table, which gets the category
+//	          configs without surrounding on the singular slot
 func configsFor(in *Instance, mode int, full bool) []Config {
 	table := in.Op == "field-type"
 	unions := UnionConfigs()
@@ -128,7 +127,7 @@ func configsFor(in *Instance, mode int, full bool) []Config {
 		if table {
 			cats = mode == SurroundNone && !strings.Contains(in.Variant, "/") && strings.HasSuffix(in.Site, "#20")
 		} else {
-			cats, singles = true, true
+			cats, singles = true, mode == SurroundNone
 		}
 	} else {
 		shallow := in.Pos == "top" || in.Pos == "file"
@@ -171,7 +170,7 @@ func run(r *evid.Run) {
 	r.Assume("annotation 'names the element' = message contains the element's number and/or name and its parent's short name, double-quoted, as listed per operator")
 
 	// the real code allocates heavily per call; a laxer GC target halves the CPU cost of a run
-	defer debug.SetGCPercent(debug.SetGCPercent(400))
+	defer TuneGC()()
 	eng := NewEngine()
 	CheckRuleTable(r, eng)
 
